@@ -209,6 +209,13 @@ class _VS:
         return Opaque(("smul", self.key, x.term, a))
 
 
+def _subterms(t):
+    yield t
+    if isinstance(t, tuple):
+        for u in t:
+            yield from _subterms(u)
+
+
 def _out(rep):
     def out(name, ok, detail):
         rep.obligation(name, bool(ok), "symexec(ground)", 0.0, "E1b", sample=(f"{name}: {detail}"[:300] if len(rep.samples) < 6 else None))
@@ -322,6 +329,19 @@ def run_structure(rep, tier):
                 f"comparison made: {log['close']}; draws {log.get('draws')}")
             out(f"{FN}.check_vjp:{case}:CV-raises-iff-mismatch", (exc is not None) == should_raise, f"raised={exc is not None}, contract: raise iff comparison fails or the VJP result is outside the space of x")
     guard("check_vjp", cv)
+
+    def cv_same():
+        # input and output in the SAME space (square maps): the two directions must still be independent draws - with y_v = x_v the comparison
+        # only sees the symmetric part of the Jacobian
+        log = {"close": []}
+        x, y = Opaque(("x",)), Opaque(("y",))
+        one = _VS("X", log)
+        rebind(T.check_vjp, vspace=lambda val: one, make_vjp=lambda f_, x_: ((lambda g: Opaque(("vjp", g.term))), y), make_numerical_jvp=lambda f_, x_: (lambda v: Opaque(("numjvp", v.term))),
+               scalar_close=lambda p, q: log["close"].append((p.term, q.term)) or True, get_name=lambda f_: "f")(object(), x)
+        terms = [t for pair in log["close"] for t in pair]
+        draws = {u for t in terms for u in _subterms(t) if isinstance(u, tuple) and u[:1] == ("randn",)}
+        out(f"{FN}.check_vjp:same-space:CV-independent-directions", len(log.get("draws", [])) == 2 and len(draws) == 2, f"draws {log.get('draws')}; directions used in the comparison: {sorted(map(str, draws))}")
+    guard("check_vjp", cv_same)
 
     def cj():
         log = {}
@@ -489,6 +509,8 @@ def _primitives(np_, defect):
             return np_.dot(A, g * np_.dot(B, x)) + np_.dot(B, g * np_.dot(A, x))
         if defect == "entry":
             return r + np_.array([0.0, 0.0, 1.0]) * g[1] * x[0]   # one entry of J^T off by x0 (a relative error of order 1 in that entry)
+        if defect == "J-instead-of-JT":
+            return np_.dot(B, x) * np_.dot(A, g) + np_.dot(A, x) * np_.dot(B, g)      # applies the Jacobian where its transpose is needed (same shape: only a direction-independent cotangent exposes it)
         if defect == "missing-reduction":
             return g * np_.dot(B, x) + g * np_.dot(A, x)      # forgot the contraction with A^T / B^T
         return fac * r
@@ -515,6 +537,7 @@ DEFECTS = {
     "sign": {(("rev",), 1): True, (("fwd",), 1): False},
     "transpose": {(("rev",), 1): True, (("fwd",), 2): False},
     "entry": {(("rev",), 1): True, (("fwd", "rev"), 1): True},
+    "J-instead-of-JT": {(("rev",), 1): True, (("fwd",), 1): False},
     "missing-reduction": {(("rev",), 1): True},
     "fwd-only": {(("fwd",), 1): True, (("rev",), 2): False, (("fwd", "rev"), 1): True},
     "second-order": {(("rev",), 1): False, (("fwd",), 1): False, (("rev",), 2): True, (("fwd", "rev"), 2): True},
